@@ -503,7 +503,7 @@ void bsr_jacobi(const I Ap[], const int Ap_size,
     }
 
     // copy x to temp
-    for(I i = 0; i < abs(row_stop-row_start)*blocksize; i += step) {
+    for(I i = 0; i < x_size; i++) {
         temp[i] = x[i];
     }
 
